@@ -61,7 +61,8 @@ def main():
         f = new_failing[0]
         path = lib.write_replay(prop, {"property": prop, "kind": "failing-input", "stream": f["stream"], "describe": f["describe"],
                                        "input": f["input"], "impl_output": f["impl"], "spec_requires": f["expected"],
-                                       "requirement": P.REQUIREMENT, "also_broken": errors, "failing_inputs_found": len(new_failing)})
+                                       "requirement": P.REQUIREMENT, "also_broken": errors, "failing_inputs_found": len(new_failing),
+                                       "seed": seed, "tier": a.tier})
         lib.write_evidence(prop, a.tier, seed, t0, coverage, P.ASSUMPTIONS, len(new_failing))
         print(f"{prop}: {f['describe']}\n   implementation: {lib.clip(f['impl'], 300)}\n   Spec requires:  {lib.clip(f['expected'], 300)}")
         print(f"VIOLATION property={prop} replay={path}"); sys.exit(1)
